@@ -247,6 +247,7 @@ package parsley
 //@   assigns nothing
 
 //@ func NewContext(fileSet *FileSet, reader Reader) (c *Context)
+//@   props C03,C04,C06,C14,C11
 //@   ensures fresh(c) && c.fileSet == fileSet && same(c.reader, reader) && c.resultCache != nil && c.err == nil && c.callCount == 0 && c.keywords != nil
 //@   ensures !c.transformationEnabled && !c.staticCheckEnabled && c.userCtx == nil
 //@   ensures [own-state;C14] fresh(c.keywords) && fresh(c.resultCache) && forall k string :: !dom(c.keywords, k)
